@@ -49,7 +49,8 @@ SPECS = [
 
 
 def native(tier, seed):
-    return [s.run(tier) for s in SPECS]
+    from vf import overlap_native
+    return [s.run(tier) for s in SPECS] + [overlap_native.sweep(tier, seed)]
 
 
 def witness_for(contract, ob, items):
